@@ -83,6 +83,9 @@ def check(case):
     nested = False
     skipped = 0
     hazard_main = False
+    only = case.get('only')
+    if only:
+        marks = [m for m in marks if m['k'] in only or m['k'] in ('operand', 'when', 'then', 'else')]
     # ---- Where
     wheres = [m for m in marks if m['k'] == 'where']
     for m in wheres:
@@ -109,7 +112,7 @@ def check(case):
         y = [yy for g, x, yy in by_cls['Where'] if x == a][0]
         if y != end:
             res.fail('where', 'extent:' + follower, 'Where covers %r, written clause (follower %s) is %r' % (text[a:y][-60:], follower, text[a:end][-60:]))
-    if len(by_cls.get('Where', [])) != len(wheres):
+    if not only and len(by_cls.get('Where', [])) != len(wheres):
         res.fail('where', 'count', '%d Where nodes for %d written WHERE clauses; text %r' % (len(by_cls.get('Where', [])), len(wheres), text[:200]))
     # ---- lists
     for m in [m for m in marks if m['k'] == 'list' and m['info'].get('n', 0) >= 2]:
@@ -154,7 +157,12 @@ def check(case):
     for m in [m for m in marks if m['k'] == 'case']:
         kinds_seen.add('case')
         a, b = cspan(m)
-        hit = [g for g, x, y in by_cls.get('Case', []) if x == a and y == b]
+        # comments written directly after END are attached to the Case node by design: the node may extend over them
+        j = m['e']
+        while j < len(clean) and clean[j][0] == 'comment':
+            j += 1
+        limit = spans[j][0] if j < len(clean) else len(text)      # start of the next word that is not a comment
+        hit = [g for g, x, y in by_cls.get('Case', []) if x == a and (y == b or (j > m['e'] and b < y <= limit))]
         if not hit:
             res.fail('case', 'missing', 'no Case node spans the written CASE expression %r' % text[a:b][:120])
             continue
@@ -240,5 +248,34 @@ def _exprs(tier):
     return st.tuples(G.predrawn_layout(0), stmt).flatmap(lambda t: G.layout(t[1], comments=0, inner=False, raw=t[0][0])).map(lambda laid: {'lex': laid})
 
 
-LEGS = [Leg('exprs', check=check, strategy=_exprs, examples={'quick': 5000, 'thorough': 120000}),
+@st.composite
+def case_comment_cases(draw):
+    """CASE expressions directly followed by a comment (before alias / comma / next clause): the comment is attached to the
+    Case node after its END; get_cases() must still yield exactly the written parts"""
+    from gen.grammar import L, kw, W, seq, comma_list
+    c = st.one_of(G.cond(0), G.cond(1))
+    e = G.expr(0)
+    case = st.tuples(st.one_of(st.none(), st.none(), e), st.lists(st.tuples(c, e), min_size=1, max_size=3), st.one_of(st.none(), e)).map(lambda t: G.case_expr(*t))
+    n = draw(st.integers(1, 3))
+    raw, pool = draw(G.predrawn_layout(10))
+    cms = [draw(st.sampled_from(['/* flag */', '/*c*/', '-- first column\n', '--x\n', '/*+ h */', '# c\n'])) for _ in range(n)]
+    tails = [draw(st.sampled_from(['', '', 'alias', 'as'])) for _ in range(n)]
+    items = []
+    for i in range(n):
+        it = seq(draw(case), [['comment', cms[i], False, {}]])
+        if tails[i] == 'alias':
+            it = seq(it, L('name', 'c%d' % i))
+        elif tails[i] == 'as':
+            it = seq(it, kw('AS'), L('name', 'c%d' % i))
+        items.append(it)
+    where = draw(st.one_of(st.none(), G.cond(0)))
+    lex = seq(L('kw', 'SELECT', False, lead='SELECT'), comma_list(items), kw('FROM', clause=True), L('name', 't9'))
+    if where is not None:
+        lex += W('where', seq(kw('WHERE', clause=True), where))
+    laid = draw(G.layout(W('stmt', lex, type='SELECT'), comments=0, inner=False, raw=raw))
+    return {'lex': laid, 'only': ['case']}
+
+
+LEGS = [Leg('case-comment', check=lambda case: check(case), strategy=lambda tier: case_comment_cases(), examples={'quick': 1500, 'thorough': 30000}),
+        Leg('exprs', check=check, strategy=_exprs, examples={'quick': 5000, 'thorough': 120000}),
         Leg('main', check=check, strategy=_main, examples={'quick': 10000, 'thorough': 250000})]
